@@ -66,10 +66,33 @@ def _frames_array(frames, width, dt):
     return a
 
 
+def _jarr(a, variant):
+    """jitter a float64 array (see _jit)"""
+    a = np.asarray(a)
+    if variant.get("jitter") and a.dtype.itemsize == 8 and a.dtype.kind == "f":
+        b = a * (1.0 + 2e-9)
+        ok = (b.astype(np.float32) == a.astype(np.float32)) & np.isfinite(a) & (np.abs(a) > 1e-30) & (np.abs(a) < 1e30)
+        return np.where(ok, b, a).astype(a.dtype)
+    return a
+
+
+def _jit(x, variant):
+    """a float64 value that rounds to x at float32 width but is not x (only when the variant asks for it):
+    32-bit fields given with more precision than the file can hold"""
+    if variant.get("jitter") and isinstance(x, float) and x == x and abs(x) > 1e-30 and abs(x) < 1e30:
+        y = x * (1.0 + 2e-9)
+        if struct.unpack("<f", struct.pack("<f", y))[0] == x:
+            return y
+    return x
+
+
 def _order(a, variant):
     """same values, other memory layout: Fortran order or a strided view into a larger buffer"""
     o = variant.get("order", "C")
     a = np.asarray(a)
+    if variant.get("jitter") and variant.get("dtype") == "f8" and a.dtype.kind == "f" and a.dtype.itemsize == 8 \
+            and not variant.get("_f64_field"):
+        a = _jarr(a, variant)
     if o == "F" and a.ndim >= 2:
         return np.asfortranarray(a)
     if o == "strided" and a.ndim >= 1 and a.size:
@@ -110,6 +133,7 @@ def build_item(kind, it, variant, spec=None):
             it["label"], _order(np.array(it["size"], dtype=dt), variant),
             _order(np.array(it["position"], dtype=dt).reshape(4, 3), variant))
     if kind == "calib":
+        variant = dict(variant, _f64_field=True)   # camera parameters are 64-bit on disk: nothing to round
         if "radial" in it:
             return tdfCalibrationData.SeelabCameraData(
                 _order(np.array(it["rot"], dtype=np.dtype(variant.get("endian", "<") + "f8")).reshape(3, 3), variant), _order(np.array(it["trans"], dtype=np.dtype(variant.get("endian", "<") + "f8")), variant),
@@ -143,7 +167,7 @@ def build(spec, variant=None):
         b = tdfData3D.Data3D(spec["frequency"], spec["nFrames"], _order(np.array(spec["volume"], dtype=dt), variant),
                              _order(np.array(spec["rot"], dtype=dt).reshape(3, 3), variant),
                              _order(np.array(spec["trans"], dtype=dt), variant),
-                             spec["startTime"], tdfData3D.Flags(spec["flag"]),
+                             _jit(spec["startTime"], variant), tdfData3D.Flags(spec["flag"]),
                              tdfData3D.Data3dBlockFormat(spec["format"]))
         if spec["format"] == 1 and (spec["links"] or variant.get("links_attr", True)):
             if variant.get("links") == "tuples":
@@ -158,7 +182,7 @@ def build(spec, variant=None):
                 b.add_track(it)
         return b
     if t == "emg":
-        b = tdfEMG.EMG(spec["frequency"], spec["nSamples"], spec["startTime"],
+        b = tdfEMG.EMG(spec["frequency"], spec["nSamples"], _jit(spec["startTime"], variant),
                        tdfEMG.EMGBlockFormat(spec["format"]))
         for c, it in zip(spec["map"], spec["tracks"]):
             b.addSignal(build_item(t, it, variant), channel=c)
@@ -166,7 +190,7 @@ def build(spec, variant=None):
     if t == "force3D":
         b = tdfForce3D.ForceTorque3D(spec["frequency"], spec["nFrames"], _order(np.array(spec["volume"], dtype=dt), variant),
                                      _order(np.array(spec["rot"], dtype=dt).reshape(3, 3), variant),
-                                     _order(np.array(spec["trans"], dtype=dt), variant), spec["startTime"],
+                                     _order(np.array(spec["trans"], dtype=dt), variant), _jit(spec["startTime"], variant),
                                      tdfForce3D.ForceTorque3DBlockFormat(spec["format"]))
         items = [build_item(t, it, variant) for it in spec["tracks"]]
         if variant.get("via") == "assign":
@@ -177,7 +201,7 @@ def build(spec, variant=None):
         return b
     if t == "platData":
         b = tdfForcePlatformsData.ForcePlatformsDataBlock(
-            spec["startTime"], spec["frequency"], spec["nFrames"],
+            _jit(spec["startTime"], variant), spec["frequency"], spec["nFrames"],
             tdfForcePlatformsData.ForcePlatformBlockFormat(spec["format"]))
         for c, it in zip(spec["map"], spec["plats"]):
             b.add_platform(build_item(t, it, variant), channel=c)
@@ -189,7 +213,7 @@ def build(spec, variant=None):
             b.add_platform(build_item(t, it, variant), channel=c)
         return b
     if t == "data2D":
-        b = tdfData2D.Data2D(spec["nCams"], spec["nFrames"], spec["frequency"], spec["startTime"],
+        b = tdfData2D.Data2D(spec["nCams"], spec["nFrames"], spec["frequency"], _jit(spec["startTime"], variant),
                              tdfData2D.Data2DFlags(spec["flags"]), tdfData2D.Data2DBlockFormat(spec["format"]))
         cells = np.empty((spec["nFrames"], spec["nCams"]), dtype=object)
         for fr in range(spec["nFrames"]):
@@ -211,7 +235,7 @@ def build(spec, variant=None):
             [build_item(t, it, variant) for it in spec["channels"]])
     if t == "events":
         b = tdfEvents.TemporalEventsData(tdfEvents.TemporalEventsDataFormat(spec["format"]),
-                                         spec["startTime"])
+                                         _jit(spec["startTime"], variant))
         for it in spec["events"]:
             b.events.append(build_item(t, it, variant))
         return b
